@@ -310,18 +310,26 @@ extern "C" void h_ht_remax_kernel()
       int info = vp_int_in(-9, 9);
       if(take) { HI h = order[k]; t.add(h, info); m.pres[order[k]] = 1; m.inf[order[k]] = info; m.n++; }
    }
+#ifdef KREM
+   int rem = KREM;
+#else
    int rem = vp_int_in(0, 2);
+#endif
    for(int k = 0; k < 3; ++k) if(k == rem && m.pres[order[k]]) { HI h = order[k]; t.remove(h); m.pres[order[k]] = 0; m.n--; }
    for(int k = 3; k < 5; ++k)
    {
       int info = vp_int_in(-9, 9);
       HI h = order[k]; t.add(h, info); m.pres[order[k]] = 1; m.inf[order[k]] = info; m.n++;
    }
-   vp_assert(t.m_elem.size() == TS, 1);          // TS = 7: no automatic rehash so far
-   int grow = vp_int_in(0, 1);
-   if(grow) t.reMax(NEWTS); else t.reMax(-1);
-   vp_assert(t.m_used == m.n && t.m_elem.size() >= m.n, 2);
-   if(grow) vp_assert(t.m_elem.size() == NEWTS, 3);
+   vp_assert(t.m_elem.size() == TS, 1);          // no automatic rehash so far
+   vp_assert(t.m_used == m.n, 2);
+#ifdef KSHRINK
+   t.reMax(-1);                                  // documented: resized to m_used only (then grown again by the refill)
+   vp_assert(t.m_used == m.n && t.m_elem.size() >= m.n, 3);
+#else
+   t.reMax(NEWTS);
+   vp_assert(t.m_used == m.n && t.m_elem.size() == NEWTS, 3);
+#endif
    check_lookups(t, m, 4);
    vp_cover(1);
 }
